@@ -308,8 +308,8 @@ class CHECK(core.Check):
     TRUSTED = ["correspondence: real ioflo House/Store/Share/Logger/Log objects writing under /verif/.scratch/log/<pid> vs "
                "the Lean driver 'logrules' on the same history; per-control outcome (ok / exception name) and the final "
                "contents of every log file compared line by line (os.fsync is stubbed: durability is C23)",
-               "the tree is /repo + fixes/D51-log-change-restart.patch + fixes/D52-log-change-alias.patch (the model "
-               "describes the repaired change rule)",
+               "the tree is /repo with the fixes D51, D52 (change rule) and D53 (reopen: an empty existing file is new) "
+               "applied; the model describes the repaired code",
                "environment assumptions of the history theorems: controls follow the runner protocol (RUN only to a "
                "started/running logger), the store stamp is numeric and never decreases, shares are not stamped in "
                "the future, loggee tags are distinct",
@@ -478,7 +478,7 @@ class CHECK(core.Check):
             nold = cfg.get("old")
             if not log["started"]:
                 continue
-            if nold is None:
+            if not nold:          # no file, or (fix D53) an existing but empty one: it gets its header
                 if lines[:2] != log["header"]:
                     fails.append(("header", "log %d (%s): new file does not start with its header: %r" % (i, cfg["rule"], lines[:2])))
                     continue
